@@ -72,9 +72,41 @@ def replay(case):
     return (not ok), (V.items[0]["detail"] if V.items else "all clauses hold on the real code for these parameters")
 
 
+def committee_cases(V, rng, n_cases):
+    """the REAL scheme functions on prescribed committee data: the variation coefficient is the one the statement names
+    (std / mean |F| per component, std(E) / N), evaluating twice on the same cached results gives the same step length, and the
+    calculator's results are only read"""
+    for c in range(n_cases):
+        for scheme in ("forces", "energy"):
+            mc = make(0.01, 0.2, 0.1, scheme, "tanh")
+            n = len(mc.atoms)
+            F = rng.normal(size=(4, n, 3)) * 10 ** rng.uniform(-2, 1)            # mixed signs
+            E = rng.normal(size=4) + 3.0
+            mc.atoms.calc.results = {mc.forces_variance_keyword: F.copy(), mc.energies_variance_keyword: E.copy()}
+            want = np.std(F, axis=0) / np.mean(np.abs(F), axis=0) if scheme == "forces" else np.std(E, axis=0) / n
+            case = {"committee_case": c, "scheme": scheme}
+            V.case(case)
+            deltas = []
+            for rep in range(2):
+                with warnings.catch_warnings():
+                    warnings.simplefilter("ignore")
+                    mc.update_delta()
+                got = np.asarray(mc.variation_coef, dtype=float)
+                if got.shape != np.shape(want) or not np.allclose(got, want, rtol=1e-12, atol=0):
+                    V.add("variation_coefficient_of_the_committee", {**case, "evaluation": rep + 1}, f"got {got.ravel()[:3]}, committee data give {np.ravel(want)[:3]}")
+                    break
+                deltas.append(np.asarray(mc.delta, dtype=float).copy())
+            res = mc.atoms.calc.results
+            if not (np.array_equal(res[mc.forces_variance_keyword], F) and np.array_equal(res[mc.energies_variance_keyword], E)):
+                V.add("calculator_results_only_read", case, "update_delta changed the committee arrays held by the calculator")
+            if len(deltas) == 2 and not np.array_equal(deltas[0], deltas[1]):
+                V.add("same_results_same_step_length", case, f"{deltas[0].ravel()[:2]} then {deltas[1].ravel()[:2]}")
+
+
 def standin(tier, seed):
     rng = np.random.default_rng(seed)
     V = Violations()
+    committee_cases(V, rng, 3 if tier == "quick" else 40)
     params = [(0.01, 0.2, 0.1), (0.05, 0.05, 1.0), (0.0, 1.0, 1e-3), (1e-3, 5.0, 50.0)]
     n_rand = 5 if tier == "quick" else 100
     for _ in range(n_rand):
